@@ -1382,6 +1382,12 @@ static Chunk *insert_vbrace(Chunk *pc, bool after, const ParsingFrame &frm)
       ref = ref->GetNext();
    }
 
+   // a brace put behind a single-line comment would become a part of it
+   if (ref->Is(CT_COMMENT_CPP))
+   {
+      ref = ref->GetNext();
+   }
+
    if (ref->IsNullChunk())
    {
       return(Chunk::NullChunkPtr);
